@@ -428,12 +428,16 @@ func Run(p *Prop, opts Opts) (*Result, error) {
 				return false
 			})
 			o2 := runCase(p, so, min)
-			msg := unknownMon
+			msg := ""
 			for _, m := range o2.mon {
 				if attribute(min, o2.real, m) == "" {
 					msg = m
 					break
 				}
+			}
+			if msg == "" {
+				// the failure does not reproduce on a re-run (timing-dependent): report the original observation
+				msg, min, o2 = unknownMon, oc.c, oc
 			}
 			f := Failure{Kind: "monitor", Msg: msg, Case: min, RealOut: o2.real, TwinOut: o2.twin}
 			writeReplay(&f)
@@ -444,6 +448,10 @@ func Run(p *Prop, opts Opts) (*Result, error) {
 		if oc.disLine >= 0 && len(res.Violations) < 5 {
 			min := shrink(p, oc.c, func(c Case) bool { return runCase(p, so, c).disLine >= 0 })
 			o2 := runCase(p, so, min)
+			if o2.disLine < 0 {
+				// the disagreement does not reproduce on a re-run (timing-dependent): report the original observation
+				o2 = oc
+			}
 			f := Failure{Kind: "correspondence", Case: min, RealOut: o2.real, TwinOut: o2.twin, NoInput: true,
 				Msg: fmt.Sprintf("twin and implementation differ at line %d: real=%q twin=%q", o2.disLine, at(o2.real, o2.disLine), at(o2.twin, o2.disLine))}
 			// does the property's own monitor fail on the disagreeing case or its minimised form?
